@@ -130,6 +130,17 @@ func init() {
 				}, "seq/alignment", "seq/multi", "seq/linear")
 				c.floor("fresh/retain", 7)
 			})
+			c.guard("fresh/periter", func() {
+				for _, t := range [][2]string{
+					{"seq/alignment", "(*Seq).AppendColumns"}, {"seq/alignment", "(*Seq).AppendEach"},
+					{"seq/alignment", "(*QSeq).AppendColumns"}, {"seq/alignment", "(*QSeq).AppendEach"},
+					{"seq/multi", "(*Multi).AppendColumns"}, {"seq/multi", "(*Multi).AppendEach"},
+					{"seq/multi", "(*Multi).Flush"},
+				} {
+					rulePerIter(c, "fresh/periter", t[0], t[1])
+				}
+				c.floor("fresh/periter", 7)
+			})
 			c.guard("fresh/clonedeep", func() {
 				for _, t := range cloneTargets {
 					ruleCloneDeep(c, "fresh/clonedeep", t[0], t[1])
@@ -206,6 +217,7 @@ func init() {
 		Run: func(c *Ctx) {
 			c.guard("errslot", func() { ruleErrSlot(c, "errslot"); c.floor("errslot/sticky", 3); c.floor("errslot/propagate", 6+2) })
 			c.guard("residue", func() { ruleResidue(c, "residue"); c.floor("residue", 5) })
+			c.guard("filepairing", func() { ruleTempFilePairing(c, "filepairing"); c.floor("filepairing", 1) })
 		},
 	})
 	register(&propDef{
@@ -216,6 +228,8 @@ func init() {
 		Run: func(c *Ctx) {
 			c.guard("closeonce", func() { ruleCloseOnce(c, "closeonce", "concurrent"); c.floor("closeonce", 5) })
 			c.guard("lockset", func() { rulePromiseLockset(c, "lockset"); c.floor("lockset", 4) })
+			c.guard("sendafterdone", func() { ruleNoSendAfterDone(c, "sendafterdone"); c.floor("sendafterdone", 1) })
+			c.guard("broadcast", func() { ruleBroadcast(c, "broadcast"); c.floor("broadcast", 1) })
 		},
 	})
 	register(&propDef{
@@ -225,6 +239,7 @@ func init() {
 		Assumptions: []string{"append reuses spare capacity of its first argument"},
 		Run: func(c *Ctx) {
 			c.guard("appendalias", func() { ruleAppendAlias(c, "appendalias", "feat/gene"); c.floor("appendalias", 1) })
+			c.guard("fresh/sortedfresh", func() { ruleSortedFresh(c, "fresh/sortedfresh", "feat/gene", "Exons.Add"); c.floor("fresh/sortedfresh", 2) })
 			c.guard("commitlast", func() {
 				ruleCommitLast(c, "commitlast", "feat/gene", "(*NonCodingTranscript).SetExons")
 				ruleCommitLast(c, "commitlast", "feat/gene", "(*CodingTranscript).SetExons")
